@@ -126,10 +126,9 @@ func allEqual(xs []float64) bool {
 // ---------------------------------------------------------------------------
 // Student t
 
-// tanhSinh integrates f over [0, b] with the double-exponential rule. f is
-// called with (x, distance of x from the nearer end, which end) so that it
-// can be evaluated accurately next to an end point singularity; here only x
-// is needed because the troublesome end is 0.
+// tanhSinh integrates f over [0, b] with the double-exponential rule; the
+// abscissae next to 0 (where the integrand may have an unbounded derivative)
+// are computed from their distance to the end point, without cancellation.
 func tanhSinh(f func(x float64) float64, b float64) float64 {
 	d := b / 2
 	eval := func(t float64) float64 {
@@ -141,8 +140,8 @@ func tanhSinh(f func(x float64) float64, b float64) float64 {
 		if w == 0 || math.IsInf(ch, 0) {
 			return 0
 		}
-		xl := d * delta     // near 0
-		xr := b - d*delta   // near b
+		xl := d * delta   // near 0
+		xr := b - d*delta // near b
 		return w * (f(xl) + f(xr))
 	}
 	h := 1.0
